@@ -448,6 +448,9 @@ def _random_config(rng, focus, S):
         C["pairfilter"] = rng.choice(("any", "both", "first"))
     if f in ("C17", "C09", "C20") or (f in ("C03", "C16") and p(0.3)):
         C["info"] = has_ads
+    if has_ads and not any(a.get("linked") for a in C.get("ads1", [])) and C.get("ads1") and \
+            (S.get("aux") or (f in ("C17", "C09", "C04", "C03") and p(0.35))):
+        C["aux"] = True             # --rest-file / --wildcard-file (not defined for linked adapters)
     if f == "C10" and p(0.7):
         C["perm_seed"] = rng.randrange(10**6)
     if S.get("only_r1") and C["paired"]:
@@ -545,7 +548,7 @@ def drive(ctx, focus, n_runs, want, reads_per_run=(5, 9), config_hook=None, extr
             failed.append(ev)
             continue
         ev["id"] = len(events)
-        ev["want"] = list(want) + (["info"] if C.get("info") else [])
+        ev["want"] = list(want) + (["info"] if C.get("info") else []) + (["aux"] if C.get("aux") else [])
         events.append(ev)
         samplers[ev["id"]] = sampler
     res = GR.validate_runs(ctx, events, samplers)
@@ -556,6 +559,7 @@ def drive(ctx, focus, n_runs, want, reads_per_run=(5, 9), config_hook=None, extr
     ctx.extra["runs"] = len(events)
     ctx.extra["runs_rejected_by_cli"] = len(failed)
     ctx.extra["reads"] = sum(len(e["reads"]) for e in events)
+    ctx.extra["runs_with_rest_and_wildcard_file"] = sum(1 for e in events if "aux" in e["want"])
     ctx.extra["paired_runs"] = sum(1 for e in events if e["cfg"]["paired"])
     ctx.extra["reads_written_to_a_file"] = sum(1 for e in events for rd in e["reads"] if rd["obs"]["dest"] != "none")
     ctx.extra["runs_with_matches"] = sum(1 for e in events if e["report"]["with1"] > 0 or e["report"]["with2"] > 0)
